@@ -73,9 +73,21 @@ func (fc *FnCtx) instr(in ssa.Instruction, st *State) {
 	case *ssa.MakeClosure:
 		fn := x.Fn.(*ssa.Function)
 		c := &Closure{Fn: fn}
+		onlyDeferred := true
+		if refs := x.Referrers(); refs != nil {
+			for _, r := range *refs {
+				switch r.(type) {
+				case *ssa.Defer, *ssa.DebugRef:
+				default:
+					onlyDeferred = false
+				}
+			}
+		}
 		for _, b := range x.Bindings {
 			bv := fc.val(b)
-			fc.markEscaped(bv) // the closure may run at any later time
+			if !onlyDeferred {
+				fc.markEscaped(bv) // the closure may run at any later time
+			}
 			c.Bindings = append(c.Bindings, bv)
 		}
 		fc.vals[x] = Val{Clo: c, GoT: x.Type()}
